@@ -16,7 +16,6 @@ import (
 	"time"
 )
 
-func (v *FnVC) frameObligations(site string) {}
 
 type FuncReport struct {
 	Name        string   `json:"name"`
